@@ -16,6 +16,7 @@ from pyvc.values import *          # noqa
 from pyvc.contract import Contract
 from pyvc.refs_engine import RefsEngine, str_term
 from pyvc.engine import PyStr, Unsupported
+from pyvc.refs_engine import name_of
 from pyvc.tasks_engine import fstring_fn
 from contracts import refspec as RS
 from contracts.refspec import fld, cls_of, C, is_ref
@@ -25,6 +26,11 @@ py_str = z3.Function("py_str_of", V, V)
 py_repr = z3.Function("py_repr_of", V, V)
 starts_minus = z3.Function("text_starts_with_minus", V, BoolS)
 opstr_of = z3.Function("class_op_str", V, V)         # the _op_str class attribute of the node's dynamic class
+str_join = z3.Function("str_join", V, IntS, z3.ArraySort(IntS, V), V)       # separator, number of parts, parts -> text
+OPSYMS = z3.Const("py_global_OPERATOR_SYMBOLS", V)
+opsym_has = z3.Function("OPERATOR_SYMBOLS_has", V, BoolS)
+opsym_get = z3.Function("OPERATOR_SYMBOLS_get", V, V)
+module_of = z3.Function("py_module_name_or_None", V, V)
 
 
 class ReprEngine(RefsEngine):
@@ -71,17 +77,14 @@ class ReprEngine(RefsEngine):
         r.is_text = True
         return r
 
-    def call_method(self, recv, name, e, cx, recv_node):
-        if name == "startswith" and isinstance(recv, PyObj) and len(e.args) == 1 and isinstance(e.args[0], ast.Constant) and e.args[0].value == "-":
-            return PyBool(starts_minus(recv.t))
-        return super().call_method(recv, name, e, cx, recv_node)
-
     def getattr(self, obj, attr, cx, node=None):
         if attr == "_op_str" and isinstance(obj, (PyObj, PyRec)):
             r = PyObj(opstr_of(self.ident(obj)))
             r.is_text = True
             return r
         r = super().getattr(obj, attr, cx, node)
+        if attr == "__name__" and isinstance(r, PyObj):
+            r.is_text = True          # a function's __name__ is a str: `{fname}` prints it as it is
         return r
 
     def val_ite(self, c, a, b, cx):
@@ -89,6 +92,82 @@ class ReprEngine(RefsEngine):
         if getattr(a, "is_text", False) and getattr(b, "is_text", False):
             r.is_text = True
         return r
+
+    # ---- lists of texts (BuiltinRef / CallRef: the argument list is built as a list and joined) ----------------------------------
+    def eval_List(self, e, cx):
+        items = [self.eval(x, cx) for x in e.elts]
+        seq = PySeq.empty(TV)
+        for it in items:
+            if not isinstance(it, PyObj):
+                raise Unsupported("list element")
+            _, seq = seq.m_append(cx, it)
+        return seq
+
+    def binop_hook(self, op, a, b, cx, inplace, node):
+        if isinstance(op, ast.Add) and isinstance(a, PySeq) and isinstance(b, PySeq):
+            # list + list / list += list: the concatenation (a fresh list for +; for += the same name is rebound to it)
+            r = TSeq(TV).fresh("concat")
+            i = z3.Int("i!cc")
+            cx.assume(z3.And(r.n == a.n + b.n, a.n >= 0, b.n >= 0))
+            cx.assume(z3.ForAll([i], z3.Implies(z3.And(0 <= i, i < a.n), r.at(i) == a.at(i)), patterns=[r.at(i)]))
+            cx.assume(z3.ForAll([i], z3.Implies(z3.And(0 <= i, i < b.n), r.at(a.n + i) == b.at(i)), patterns=[b.at(i)]))
+            return r
+        return super().binop_hook(op, a, b, cx, inplace, node)
+
+    def call_method(self, recv, name, e, cx, recv_node):
+        if isinstance(recv, PyStr) and name == "join" and len(e.args) == 1:
+            arg = self.eval(e.args[0], cx)
+            if not isinstance(arg, PySeq):
+                raise Unsupported("join of " + type(arg).__name__)
+            cx.st.env["@joined"] = arg
+            r = PyObj(str_join(z3.Const("str:" + repr(recv.s), V), arg.n, arg.arr))
+            r.is_text = True
+            return r
+        if name == "get" and isinstance(recv, PyObj) and recv.t.eq(OPSYMS) and len(e.args) == 2:
+            # OPERATOR_SYMBOLS.get(op, default): the module-level table of builtin names (abs, round, divmod, ...)
+            k = self.as_v(self.eval(e.args[0], cx))
+            dflt = self.eval(e.args[1], cx)
+            r = PyObj(z3.If(opsym_has(k), opsym_get(k), self.as_v(dflt)))
+            r.is_text = True
+            return r
+        if name == "startswith" and isinstance(recv, PyObj) and len(e.args) == 1 and isinstance(e.args[0], ast.Constant) and e.args[0].value == "-":
+            return PyBool(starts_minus(recv.t))
+        return super().call_method(recv, name, e, cx, recv_node)
+
+    def builtin_sorted(self, e, cx):
+        """sorted(xs[, key=...]): SOME rearrangement of xs (which one depends on values the text model does not see)"""
+        if len(e.args) != 1:
+            raise Unsupported("sorted form")
+        src = self.iterate(self.eval(e.args[0], cx), cx)
+        for ax in src.axioms:
+            cx.assume(ax)
+        r = TSeq(TV).fresh("sorted")
+        perm = FreshFun("sorted_perm", IntS, IntS)
+        inv = FreshFun("sorted_perm_inv", IntS, IntS)
+        i = z3.Int("i!so")
+        cx.assume(r.n == src.n)
+        cx.assume(z3.ForAll([i], z3.Implies(z3.And(0 <= i, i < r.n), z3.And(0 <= perm(i), perm(i) < r.n, inv(perm(i)) == i,
+                                                                              r.at(i) == src.at(perm(i)))), patterns=[r.at(i)]))
+        return r
+
+    def global_name(self, name, cx, node):
+        if name == "OPERATOR_SYMBOLS":
+            return PyObj(OPSYMS)
+        return super().global_name(name, cx, node)
+
+    def builtin_getattr(self, e, cx):
+        if len(e.args) == 3 and isinstance(e.args[1], ast.Constant) and e.args[1].value == "__module__" \
+                and isinstance(e.args[2], ast.Constant) and e.args[2].value is None:
+            o = self.as_v(self.eval(e.args[0], cx))
+            r = PyObj(module_of(o))       # the name of the defining module, or None
+            r.is_text = True
+            return r
+        return super().builtin_getattr(e, cx)
+
+    def py_eq(self, a, b, cx):
+        if getattr(a, "is_text", False) and isinstance(b, PyStr):
+            return a.t == str_term(b.s)
+        return super().py_eq(a, b, cx)
 
 
 def _c(cname, post, requires=()):
@@ -112,6 +191,65 @@ REPRS = [
     _c("EqExpr", lambda o, n, r: r.t == F("{!r}._eq({!r})", 2)(py_repr(fld["_lhs"](me(o))), py_repr(fld["_rhs"](me(o))))),
     _c("NeExpr", lambda o, n, r: r.t == F("{!r}._neq({!r})", 2)(py_repr(fld["_lhs"](me(o))), py_repr(fld["_rhs"](me(o))))),
 ]
+
+
+# ---- BuiltinRef / CallRef: "name(arg, arg, ..., key=value, ...)" -- the parts in slot order, every argument through repr -----------
+_i = z3.Int("i!rp")
+SEP = z3.Const("str:" + repr(", "), V)
+
+
+def _parts(n):
+    return getattr(n, "@joined")
+
+
+def _builtin_post():
+    def name(o):
+        op = fld["_op"](me(o))
+        base = z3.If(opsym_has(op), opsym_get(op), name_of(op))
+        return z3.If(module_of(op) == str_term("math"), F("math.{}", 1)(base), base)
+
+    return [
+        ("parts: str(arg), then repr of every extra parameter in order", lambda o, n, r: z3.And(
+            _parts(n).n == 1 + RS.tup_n(fld["_params"](me(o))),
+            _parts(n).at(0) == py_str(fld["_arg"](me(o))),
+            z3.ForAll([_i], z3.Implies(z3.And(0 <= _i, _i < RS.tup_n(fld["_params"](me(o)))),
+                                       _parts(n).at(1 + _i) == py_repr(RS.tup_at(fld["_params"](me(o)), _i)))))),
+        ("printing-rule: name(parts joined by ', '); math.<name> for the math functions", lambda o, n, r:
+            r.t == F("{}({})", 2)(name(o), str_join(SEP, _parts(n).n, _parts(n).arr))),
+    ]
+
+
+def _call_post():
+    def fname(o):
+        f = fld["_func"](me(o))
+        return z3.If(is_ref(f), py_repr(f), name_of(f))
+
+    def na(o):
+        return RS.tup_n(fld["_args"](me(o)))
+
+    return [
+        ("parts: repr of every positional argument in order, then name=repr(value) of every keyword argument in stored order",
+         lambda o, n, r: z3.And(
+             _parts(n).n == na(o) + RS.tup_n(fld["_kwargs"](me(o))),
+             z3.ForAll([_i], z3.Implies(z3.And(0 <= _i, _i < na(o)),
+                                        _parts(n).at(_i) == py_repr(RS.tup_at(fld["_args"](me(o)), _i)))),
+             z3.ForAll([_i], z3.Implies(z3.And(0 <= _i, _i < RS.tup_n(fld["_kwargs"](me(o)))),
+                                        _parts(n).at(na(o) + _i) == F("{}={!r}", 2)(
+                                            py_str(RS.kw_name(RS.tup_at(fld["_kwargs"](me(o)), _i))),
+                                            py_repr(RS.kw_val(RS.tup_at(fld["_kwargs"](me(o)), _i)))))))),
+        ("printing-rule: function(parts joined by ', '), the function printed as a reference when it is one", lambda o, n, r:
+            r.t == F("{}({})", 2)(fname(o), str_join(SEP, _parts(n).n, _parts(n).arr))),
+    ]
+
+
+def _c2(cname, posts):
+    return Contract(module=M, qualname=f"{cname}.__repr__", params=dict(self=TObj(cname)), result=TV,
+                    requires=[("is-ref", lambda s: is_ref(s.self.t))],
+                    raises={"PyExc": dict(when=None, post=[], no_frame=True)},
+                    ensures=posts, min_obligations=2, extra=dict(engine=ReprEngine))
+
+
+REPRS += [_c2("BuiltinRef", _builtin_post()), _c2("CallRef", _call_post())]
 CONTRACTS = REPRS
 
 
